@@ -412,7 +412,10 @@ impl<'a> Gen<'a> {
                 } else if r < inject_rate + f10_rate {
                     let k = *self.rng.pick(&twin_kinds);
                     let mut o = self.op(k);
-                    o.fail_at = 1 + self.rng.below(6) as u32;
+                    o.fail_at = 1 + self.rng.below(8) as u32;
+                    if self.rng.chance(1, 3) {
+                        o.fail_at |= 0x100; // stays broken from that call on
+                    }
                     v.push(o);
                 } else {
                     let k = *self.rng.pick(&kinds);
